@@ -17,8 +17,8 @@ import numpy as np
 from harness.common import cf, cflist, cnat, cnatlist, cz, differential, hexf, unhex
 
 ID = "C11"
-IMPORTS = "From Evo Require Import Num Linalg Filters Subsample.\n"
-COQ_TARGETS = ["theories/SubsampleProofs.vo"]
+IMPORTS = "From Evo Require Import Num Linalg Filters Subsample SubsampleRun.\n"
+COQ_TARGETS = ["theories/SubsampleProofs.vo", "theories/SubsampleRun.vo"]
 TRUSTED = [
     "model Evo.Subsample written by hand from evo/core/trajectory.py (downsample, motion_filter, reduce_to_time_range, "
     "split_time_gaps, split_distance_gaps, split_speed_outliers, merge, reduce_to_ids) and filters.filter_by_motion; "
@@ -290,42 +290,58 @@ def _opt(x):
     return "None" if x is None else "(Some %s)" % cf(unhex(x))
 
 
+def _zl(xs):
+    return "[" + "; ".join(cz(x) for x in xs) + "]"
+
+
+def _impl_ids(out):
+    """the implementation's kept indices as a Coq term: option (list Z)"""
+    if out.get("error") or "ids" not in out:
+        return "None"
+    return "(Some %s)" % _zl(out["ids"])
+
+
 def expr(case, out):
+    """(report, extra): report = None when the model's value equals the implementation's (compared inside Coq),
+    Some model_value otherwise; extra = decision margin / oracle verdict"""
     kind = case["kind"]
     if kind == "downsample":
-        return "(downsample_z %s %s, 1)" % (cz(case["n"]), cz(case["N"]))
+        return "(report_zids (downsample_z %s %s) %s, 1)" % (cz(case["n"]), cz(case["N"]), _impl_ids(out))
     if kind == "motion":
-        cls = cnatlist(out.get("cls", []))
+        cls = "[" + "; ".join(cz(c) for c in out.get("cls", [])) + "]"
         ncls = (max(out["cls"]) + 1) if out.get("cls") else 0
         rows = [[] for _ in range(ncls)]
         for a, b, v in out.get("tab", []):
-            rows[b].append("(%s, %s)" % (cnat(a), cf(unhex(v))))
+            rows[b].append("(%s, %s)" % (cz(a), cf(unhex(v))))
         tab = "[" + "; ".join("[" + "; ".join(r) + "]" for r in rows) + "]"
-        return "(motion_ids pi_f %s (class_ang %s %s %s) %s %s %s, 1)" % (
+        return "(report_ids (motion_ids pi_f %s (class_ang %s %s %s) %s %s %s) %s, 1)" % (
             _v3list(case["pos"]), cls, tab, cf(-1.0), cf(unhex(case["dthr"])), cf(unhex(case["athr"])),
-            "true" if case["degrees"] else "false")
+            "true" if case["degrees"] else "false", _impl_ids(out))
     if kind == "crop":
-        return "(crop_ids %s %s %s, 1)" % (cflist(unhex(x) for x in case["ts"]), _opt(case["start"]), _opt(case["end"]))
-    if kind == "split_time":
+        return "(report_ids (crop_ids %s %s %s) %s, 1)" % (
+            cflist(unhex(x) for x in case["ts"]), _opt(case["start"]), _opt(case["end"]), _impl_ids(out))
+    if kind.startswith("split"):
         n = len(case["ts"])
-        return "(Some (split_slices (time_gap_flags %s %s) (seq 0 %s)), 1)" % (
-            cf(unhex(case["thr"])), cflist(unhex(x) for x in case["ts"]), cnat(n))
-    if kind == "split_dist":
-        n = len(case["ts"])
-        return "(Some (split_slices (dist_gap_flags %s %s) (seq 0 %s)), 1)" % (
-            cf(unhex(case["thr"])), _v3list(case["pos"]), cnat(n))
-    if kind == "split_speed":
-        n = len(case["ts"])
+        got = "None" if (out.get("error") or "parts" not in out) else "(Some [%s])" % "; ".join(_zl(p) for p in out["parts"])
+        thr = cf(unhex(case["thr"]))
+        if kind == "split_time":
+            m = "Some (split_slices (time_gap_flags %s %s) (seq 0 %s))" % (thr, cflist(unhex(x) for x in case["ts"]), cnat(n))
+            return "(report_parts (%s) %s, 1)" % (m, got)
+        if kind == "split_dist":
+            m = "Some (split_slices (dist_gap_flags %s %s) (seq 0 %s))" % (thr, _v3list(case["pos"]), cnat(n))
+            return "(report_parts (%s) %s, 1)" % (m, got)
         ps, ts = _v3list(case["pos"]), cflist(unhex(x) for x in case["ts"])
-        margin = "1" if case.get("exact") else "speed_margin %s %s %s" % (cf(unhex(case["thr"])), ps, ts)
-        return "(split_speed %s %s %s (seq 0 %s), %s)" % (cf(unhex(case["thr"])), ps, ts, cnat(n), margin)
+        margin = "1" if case.get("exact") else "speed_margin %s %s %s" % (thr, ps, ts)
+        return "(report_parts (split_speed %s %s %s (seq 0 %s)) %s, %s)" % (thr, ps, ts, cnat(n), got, margin)
     if kind == "merge":
         stamps = [unhex(x) for st in case["trajs"] for x in st]
-        tags = cnatlist(range(len(stamps)))
-        order = cnatlist(out.get("order", []))
-        inv = cnatlist(int(i) for i in np.argsort(np.array(out.get("order", []), dtype=int), kind="stable"))
-        return "(merge3 0 0%%nat 0%%nat %s %s %s %s, is_argsort_b %s %s %s)" % (
-            order, cflist(stamps), tags, tags, cflist(stamps), order, inv)
+        tags = _zl(range(len(stamps)))
+        order = _zl(out.get("order", []))
+        inv = _zl(int(i) for i in np.argsort(np.array(out.get("order", []), dtype=int), kind="stable"))
+        got = "(%s, %s, %s)" % (cflist(unhex(x) for x in out.get("stamps", [])), _zl(out.get("xyz_tags", [])),
+                                _zl(out.get("quat_tags", [])))
+        return "(report_merge (merge3 0 0%%Z 0%%Z (ns %s) %s %s %s) %s, is_argsort_b %s (ns %s) (ns %s))" % (
+            order, cflist(stamps), tags, tags, got, cflist(stamps), order, inv)
     raise ValueError(kind)
 
 
@@ -469,51 +485,26 @@ def spec_check(case, out):
 FRAGILE = [0]
 
 
-def _model_value(v):
-    if v is None:
-        return None
-    if isinstance(v, tuple) and v and v[0] == "Some":
-        return v[1]
-    return v
-
-
 def judge(case, val, out):
     kind = case["kind"]
-    if kind == "merge":
-        model, extra = (val[0], val[1], val[2]), val[3]
-    else:
-        model, extra = val
+    rep, extra = val
     if out.get("oracle_ok") is False:
         return {"kind": "model-vs-impl", "failing_input": False, "correspondence": "Subsample angle oracle",
                 "detail": "an oracle angle does not satisfy cos(angle) = (trace - 1)/2, or an unexpected matrix was queried"}
     msg = spec_check(case, out)
     if msg is not None:
         return {"kind": "spec-violation", "failing_input": True, "detail": msg}
-    m = _model_value(model)
-    if kind == "merge":
-        if extra is not True:
-            return {"kind": "model-vs-impl", "failing_input": False, "correspondence": "argsort oracle",
-                    "detail": "numpy's argsort answer rejected by is_argsort_b"}
-        ms, mx, mq = m
-        if [hexf(x) for x in ms] == out["stamps"] and list(mx) == out["xyz_tags"] and list(mq) == out["quat_tags"]:
-            return None
-        return {"kind": "model-vs-impl", "failing_input": False, "correspondence": "Subsample.merge3",
-                "detail": "merged trajectory differs from the model"}
-    if model is None or model == "None":
-        agree = out.get("error") in ("TrajectoryException", "FilterException")
-    elif out.get("error"):
-        agree = False
-    elif kind.startswith("split"):
-        agree = [list(p) for p in m] == out["parts"]
-    else:
-        agree = list(m) == out["ids"]
-    if agree:
+    if kind == "merge" and extra is not True:
+        return {"kind": "model-vs-impl", "failing_input": False, "correspondence": "argsort oracle",
+                "detail": "numpy's argsort answer rejected by is_argsort_b"}
+    if rep is None:          # compared inside Coq: the model's value equals the implementation's
         return None
-    if kind == "split_speed" and isinstance(extra, (int, float)) and extra < 1e-9 and not case.get("exact"):
+    if kind == "split_speed" and isinstance(extra, (int, float)) and not isinstance(extra, bool) and extra < 1e-9 \
+            and not case.get("exact"):
         FRAGILE[0] += 1
         return None
     return {"kind": "model-vs-impl", "failing_input": False, "correspondence": "Subsample." + kind,
-            "detail": "kept indices / parts differ from the model although the restated property accepts them"}
+            "detail": "kept indices / parts / merge order differ from the model although the restated property accepts them"}
 
 
 def nontrivial(case, val, out):
@@ -762,7 +753,7 @@ def random_cases(ctx):
             out.append({"kind": kind, "ts": hx(ts), "pos": hpos(pos.tolist()), "thr": hexf(thr), "exact": exact})
         else:
             m = int(rng.integers(1, 7))
-            ts = ts[:(1500 if big else 200)]
+            ts = ts[:(600 if big else 200)]
             n = len(ts)
             if k % 2:
                 owner = rng.integers(0, m, n)                  # interleaved
